@@ -403,6 +403,6 @@ def _check_variants(case):
 
 
 SUBCHECKS = [
-    HypSub("swaps", _case, _check, _classify, budget={"quick": 1200, "thorough": 16000}),
-    HypSub("swaps_variants", _variant_case, _check_variants, _classify_variant, budget={"quick": 400, "thorough": 6000}),
+    HypSub("swaps", _case, _check, _classify, budget={"quick": 1200, "thorough": 40000}),
+    HypSub("swaps_variants", _variant_case, _check_variants, _classify_variant, budget={"quick": 400, "thorough": 16000}),
 ]
